@@ -10,6 +10,51 @@ from .bytes_ import SymBytes
 from .env import EnvModule
 
 
+class BodySlice:
+    """base[start:stop] with symbolic bounds, kept as a record (slice identity)"""
+    __sx_sym__ = True
+
+    def __init__(self, base, start, stop):
+        self.base, self.start, self.stop = base, start, stop
+
+    def __repr__(self):
+        return f'BodySlice({len(self.base)} bytes, {self.start}, {self.stop})'
+
+    def __sx_eval__(self, m):
+        from .explore import eval_under
+        return {'slice_of_len': len(self.base), 'start': eval_under(m, self.start), 'stop': eval_under(m, self.stop)}
+
+
+class BodyBytes:
+    """a response body: bytes whose slices with symbolic bounds are recorded instead of enumerated"""
+    __sx_sym__ = True
+
+    def __init__(self, value):
+        self.value = value
+
+    def __len__(self):
+        return len(self.value)
+
+    def __sx_len__(self):
+        return len(self.value)
+
+    def __getitem__(self, k):
+        if isinstance(k, slice) and k.step is None and any(
+                getattr(v, '__sx_sym__', False) for v in (k.start, k.stop)):
+            return BodySlice(self.value, 0 if k.start is None else k.start,
+                             len(self.value) if k.stop is None else k.stop)
+        return self.value[k]
+
+    def __sx_bytes__(self):
+        return self.value
+
+    def __eq__(self, o):
+        return self.value == (o.value if isinstance(o, BodyBytes) else o)
+
+    def __hash__(self):
+        return id(self)
+
+
 class SxBytesIO:
     """Seekable in-memory binary stream.  Positions are concrete (a symbolic position is
     concretised by a bounded fork)."""
@@ -158,7 +203,10 @@ class SxBytesIO:
         self._check()
         if self._rope is not None:
             return self._rope
-        return SymBytes.make(bytes(self._buf), dict(self._sym))
+        v = SymBytes.make(bytes(self._buf), dict(self._sym))
+        if core.active() and core.ctx().env.get('body_slices'):
+            return BodyBytes(v)
+        return v
 
     def getbuffer(self):
         return self.getvalue()
